@@ -141,10 +141,10 @@ func sameChars(a, b []vaxis.Character) bool {
 }
 
 type gen struct {
-	cfg    *hx.Config
-	direct []hx.DirectViolation
-	vx     *vaxis.Vaxis
-	hangs  int
+	cfg          *hx.Config
+	direct       []hx.DirectViolation
+	vx           *vaxis.Vaxis
+	hangs        int
 	skippedDraws int
 }
 
@@ -242,8 +242,11 @@ func (o tfOp) apply(tf *textfield.TextField) {
 	switch o.kind {
 	case "text":
 		k := vaxis.Key{Keycode: firstRune(o.s), Text: o.s}
-		if o.variant == 1 {
+		switch o.variant {
+		case 1:
 			k.EventType = vaxis.EventRepeat
+		case 2: // a chunk of a bracketed paste: TextField inserts it like typed text
+			k.EventType = vaxis.EventPaste
 		}
 		ev(k)
 	case "home":
@@ -270,6 +273,8 @@ func (o tfOp) apply(tf *textfield.TextField) {
 			ev(vaxis.Key{Keycode: vaxis.KeyF05})
 		case 2:
 			ev(vaxis.Key{Keycode: vaxis.KeyEnter, EventType: vaxis.EventRelease})
+		case 3:
+			ev(vaxis.PasteEndEvent{})
 		default:
 			ev(vaxis.FocusIn{})
 		}
@@ -365,7 +370,7 @@ func (g *gen) randTFOp(alpha []string, curLen int) tfOp {
 	v2 := r.Intn(2)
 	switch {
 	case x < 34:
-		return tfOp{kind: "text", s: g.randText(alpha, 3), variant: v2}
+		return tfOp{kind: "text", s: g.randText(alpha, 3), variant: r.Intn(3)}
 	case x < 44:
 		return tfOp{kind: "left", variant: v2}
 	case x < 51:
@@ -383,7 +388,7 @@ func (g *gen) randTFOp(alpha []string, curLen int) tfOp {
 	case x < 79:
 		return tfOp{kind: "enter"}
 	case x < 82:
-		return tfOp{kind: "ignored", variant: r.Intn(4)}
+		return tfOp{kind: "ignored", variant: r.Intn(5)}
 	case x < 86:
 		return tfOp{kind: "insertapi", s: g.randText(alpha, 4)}
 	case x < 91:
@@ -453,9 +458,9 @@ func (g *gen) tfStream() (*hx.Stream, *hx.Stream) {
 		rec(nil, pl.depth)
 	}
 	// random histories over the boundary-stable alphabet
-	nRand, maxLen := 400, 30
+	nRand, maxLen := 300, 30
 	if g.cfg.Thorough() {
-		nRand, maxLen = 3000, 200
+		nRand, maxLen = 2000, 200
 	}
 	for i := 0; i < nRand; i++ {
 		L := 3 + r.Intn(maxLen-2)
@@ -479,7 +484,7 @@ func (g *gen) tfStream() (*hx.Stream, *hx.Stream) {
 	both = append(both, unstableExtra...)
 	nUn := 120
 	if g.cfg.Thorough() {
-		nUn = 1500
+		nUn = 1000
 	}
 	for i := 0; i < nUn; i++ {
 		L := 3 + r.Intn(25)
@@ -832,7 +837,7 @@ func (g *gen) tiStream() (*hx.Stream, *hx.Stream) {
 	}
 	plans := []plan{{0, ex, 2}, {1, ex, 2}, {2, ex, 2}, {0, core, 3}}
 	if g.cfg.Thorough() {
-		plans = []plan{{0, ex, 4}, {1, ex, 3}, {2, ex, 3}}
+		plans = []plan{{0, ex, 3}, {1, ex, 3}, {2, ex, 3}, {0, core, 4}}
 	}
 	seen := map[string]bool{}
 	for _, pl := range plans {
@@ -858,9 +863,9 @@ func (g *gen) tiStream() (*hx.Stream, *hx.Stream) {
 		rec(nil, pl.depth)
 	}
 	// random histories
-	nRand, maxLen := 400, 30
+	nRand, maxLen := 300, 30
 	if g.cfg.Thorough() {
-		nRand, maxLen = 3000, 200
+		nRand, maxLen = 2000, 200
 	}
 	mk := func(alpha []string, L int, unstable bool) []tiOp {
 		var ops []tiOp
@@ -877,9 +882,9 @@ func (g *gen) tiStream() (*hx.Stream, *hx.Stream) {
 		g.runTI(sl, tiPrompts[r.Intn(len(tiPrompts))], mk(stableAlpha, L, false), true, "ti-random")
 	}
 	// Draw-heavy histories: long contents, every motion followed by a Draw at a random width
-	nDraw := 150
+	nDraw := 120
 	if g.cfg.Thorough() {
-		nDraw = 2000
+		nDraw = 1200
 	}
 	for i := 0; i < nDraw; i++ {
 		ops := []tiOp{{kind: "setcontent", s: g.randText(stableAlpha, 30)}}
@@ -899,7 +904,7 @@ func (g *gen) tiStream() (*hx.Stream, *hx.Stream) {
 	both = append(both, "\t")
 	nUn := 120
 	if g.cfg.Thorough() {
-		nUn = 1500
+		nUn = 1000
 	}
 	for i := 0; i < nUn; i++ {
 		g.runTI(sl, tiPrompts[r.Intn(len(tiPrompts))], mk(both, 3+r.Intn(25), true), false, "ti-unstable")
